@@ -74,6 +74,17 @@ fn scripted(req: Request, log: &Mutex<Vec<String>>) -> Response {
         let mut r = Response::new(200);
         r.body = servlin::internal::ResponseBody::File(p, 10);
         r
+    } else if let Some(k) = path.strip_prefix("/fl") {
+        // a file body declared as 10 bytes whose file holds 10 + k: exactly the declared 10 go out and the
+        // connection carries on (serving a prefix of a file; a log file that grew since its length was taken)
+        let dir = Box::leak(Box::new(temp_dir::TempDir::new().unwrap()));
+        let p = dir.child("body");
+        let mut data = b"0123456789".to_vec();
+        data.extend(std::iter::repeat(b'Z').take(num(k) as usize));
+        std::fs::write(&p, &data).unwrap();
+        let mut r = Response::new(200);
+        r.body = servlin::internal::ResponseBody::File(p, 10);
+        r
     } else if path == "/fm" {
         // a file body whose file does not exist: the head goes out, then opening fails
         let mut r = Response::new(200);
